@@ -751,7 +751,22 @@ impl Cx<'_> {
             1 => v.push(tt("?")),
             _ => {}
         }
-        let (rhs, _) = self.expr(Kind::S(sk), depth);
+        let deep = matches!(sk, SK::Any | SK::Obj) && self.rng.chance(1, 30);
+        let (mut rhs, _) = match if deep { self.try_var(Kind::S(sk), depth) } else { None } {
+            Some(x) => x,
+            None => self.expr(Kind::S(sk), depth),
+        };
+        if deep {
+            // very deep nesting: the value sits 13-20 object literals down
+            let n = self.rng.range(13, 20);
+            for k in 0..n {
+                let mut w = vec![t("{"), t(&format!("'d{k}"))];
+                w.extend(rhs);
+                w.push(t("}"));
+                rhs = w;
+            }
+            self.features.insert("value_nested_more_than_a_dozen_objects_deep");
+        }
         v.extend(rhs);
         (v, false)
     }
@@ -1795,7 +1810,9 @@ pub fn render(ast: &ProgramAst, layout: &Layout) -> Vec<RMod> {
         for (si, s) in m.stmts.iter().enumerate() {
             let mut start = None;
             for (ti, tok) in s.toks.iter().enumerate() {
-                if ti > 0 && !tok.tight {
+                // two references in a row need nothing between them (`@a@b`)
+                let glued = ti > 0 && !tok.tight && layout.comments && tok.text.starts_with('@') && s.toks[ti - 1].text.starts_with('@') && rng.chance(1, 3);
+                if ti > 0 && !tok.tight && !glued {
                     let mb = match layout.multibyte {
                         0 => false,
                         1 => rng.chance(1, 12),
